@@ -324,6 +324,18 @@ func (p *Peer) Establish(sess *CPSession) EstResult {
 			}
 		}
 	}
+	// one address per session: PDRs that asked for allocation share it
+	var got net.IP
+	for _, x := range sess.PDRs {
+		if x.GotUEIP != nil {
+			got = x.GotUEIP
+		}
+	}
+	for _, x := range sess.PDRs {
+		if x.UEIPAlloc && x.GotUEIP == nil {
+			x.GotUEIP = got
+		}
+	}
 	p.Sessions[sess.CPSEID] = sess
 	return res
 }
@@ -337,6 +349,8 @@ type ModSpec struct {
 	RemoveFAR            []uint32
 	RemoveQER            []uint32
 	NewCPSEID            uint64 // 0 = keep
+	Tag                  string // generator's name for the kind of change (signature component)
+	Trigger              string // non-empty: this operation is a trigger of a listed known finding
 }
 
 func (m *ModSpec) Empty() bool {
@@ -345,9 +359,32 @@ func (m *ModSpec) Empty() bool {
 }
 
 func (m *ModSpec) Describe() string {
-	return fmt.Sprintf("cPDR=%d uPDR=%d cFAR=%d uFAR=%d cQER=%d uQER=%d rPDR=%v rFAR=%v rQER=%v newCPSEID=%d",
-		len(m.CreatePDR), len(m.UpdatePDR), len(m.CreateFAR), len(m.UpdateFAR), len(m.CreateQER), len(m.UpdateQER),
-		m.RemovePDR, m.RemoveFAR, m.RemoveQER, m.NewCPSEID)
+	out := "[" + m.Tag + "]"
+	for _, x := range m.CreatePDR {
+		out += " createPDR{" + describePDR(x) + "}"
+	}
+	for _, x := range m.UpdatePDR {
+		out += " updatePDR{" + describePDR(x) + "}"
+	}
+	for _, x := range m.CreateFAR {
+		out += fmt.Sprintf(" createFAR{%+v}", *x)
+	}
+	for _, x := range m.UpdateFAR {
+		out += fmt.Sprintf(" updateFAR{%+v}", *x)
+	}
+	for _, x := range m.CreateQER {
+		out += fmt.Sprintf(" createQER{%+v}", *x)
+	}
+	for _, x := range m.UpdateQER {
+		out += fmt.Sprintf(" updateQER{%+v}", *x)
+	}
+	if len(m.RemovePDR)+len(m.RemoveFAR)+len(m.RemoveQER) > 0 {
+		out += fmt.Sprintf(" removePDR=%v removeFAR=%v removeQER=%v", m.RemovePDR, m.RemoveFAR, m.RemoveQER)
+	}
+	if m.NewCPSEID != 0 {
+		out += fmt.Sprintf(" newCPSEID=%d", m.NewCPSEID)
+	}
+	return out
 }
 
 func (p *Peer) ModifyMsg(upSEID uint64, m *ModSpec) *message.SessionModificationRequest {
@@ -528,4 +565,22 @@ func sortU64(a []uint64) {
 			a[j], a[j-1] = a[j-1], a[j]
 		}
 	}
+}
+
+// Cause is the signature component naming the operation.
+func (m *ModSpec) Cause() string {
+	if m.Trigger != "" {
+		return "after:" + m.Trigger
+	}
+	return "mod:" + m.Tag
+}
+
+// HasWidePortRange: some PDR's filter has a port range wider than 100 ports.
+func (s *CPSession) HasWidePortRange() bool {
+	for _, p := range s.PDRs {
+		if p.SDF != nil && p.SDF.HasPort && int(p.SDF.PortHi)-int(p.SDF.PortLo)+1 > 100 {
+			return true
+		}
+	}
+	return false
 }
